@@ -89,6 +89,7 @@ def g4_projective_add(ctx, cfg_name, prog, rule='R-GUARD/G4'):
         # general-case nodes: arithmetic on this->x/y/z
         gen = []
         exits = {'copy_a': [], 'lift_b': [], 'double_a': []}
+        lift_const_z = []     # lifting an affine b as (b.x, b.y, 1) forgets b.infinity
         for n in g.stmt_nodes():
             for c in pr.calls(n.ast):
                 th = pr.canon(c['this']) if c.get('this') is not None else ''
@@ -99,6 +100,8 @@ def g4_projective_add(ctx, cfg_name, prog, rule='R-GUARD/G4'):
                     exits['lift_b'].append(n)
                 elif th.startswith('this->') and c['name'] == 'copy' and args and (args[0].startswith(pb + '.') or args[0].endswith('::one')):
                     exits['lift_b'].append(n)
+                    if args[0].endswith('::one'):
+                        lift_const_z.append(n)
                 elif th == 'this' and c['name'] == 'multiply2' and args == [pa]:
                     exits['double_a'].append(n)
                 elif th.startswith('this->') and c['name'] in ARITH:
@@ -116,6 +119,11 @@ def g4_projective_add(ctx, cfg_name, prog, rule='R-GUARD/G4'):
         if not (ca and exits['lift_b'] and all(any(g.must_pass_edge(c.id, True, e.id) for c in ca) for e in exits['lift_b'])):
             ok = False
             why.append('no `%s.is_zero()` => copy/lift of %s exit' % (a, b))
+        for n in lift_const_z:
+            if not (cb and guarded_by_false(g, cb, n.id)):
+                ok = False
+                why.append('the exit that lifts %s as (x, y, 1) at %s is reachable with %s at infinity: identity + affine identity would '
+                           'become the finite point (%s.x, %s.y, 1)' % (b, loc_str(n.ast), b, b, b))
         if not (len(eq_conds) >= 2 and exits['double_a'] and
                 all(all(g.must_pass_edge(c.id, True, e.id) for c in eq_conds[:2]) for e in exits['double_a'])):
             ok = False
